@@ -8,7 +8,6 @@ Spec column: `<tree>` (strict), `<tree>|err` (either outcome allowed, nothing el
 dump of the Go value the record was made from) differs from the spec's tree.
 -/
 import ZygoVerif.Model.ToGo
-import ZygoVerif.Model.ToGoHist
 import ZygoVerif.Spec.RecordGo
 import ZygoVerif.Driver.Proto
 namespace ZygoVerif.Driver.Togo
@@ -253,10 +252,7 @@ def handle (toks : List String) : String :=
         let want : Option String := if mode == "echo" then rootDef.map (·.name) else none
         if mode != "conv" && mode != "echo" then "bad-op\t-" else
         -- model
-        let m : String :=
-          -- a record of a type with an embedded pointer cannot even be constructed (MakeHash panics)
-          if !ToGoHist.constructible w fuel x then "err" else
-          match toGoTop w fuel want x with
+        let m : String := match toGoTop w fuel want x with
           | .error .err => "err"
           | .error .fuel => "model-out-of-scope"
           | .ok (o, st) =>
